@@ -157,8 +157,40 @@ Fixpoint c04_follow (before : list fev) (l : list fev) : bool :=
      end) && c04_follow (before ++ [e]) r
   end.
 
+(* where a completed build lands: the first write of a thread after its builder returned v for key k is
+   backend.Write(k, v) — the key the build was started for (not whatever the caller's key buffer holds by then) and
+   the value the builder returned.  FailoverLands.build_lands proves it of every reachable state of the model. *)
+Inductive wev :=
+| WEnd (t : tid) (k : key) (v : val)     (* builder of thread t returned v for key k *)
+| WWrite (t : tid) (k : key) (v : val).  (* thread t called backend.Write(k, v) *)
+
+Definition wproj (e : fev) : option wev :=
+  match e with
+  | FBuildEnd t k (inl v) => Some (WEnd t k v)
+  | FWrite t k v _ _ _ => Some (WWrite t k v)
+  | _ => None
+  end.
+
+(* pend: threads whose builder has returned a value that is not written yet *)
+Fixpoint wlands (pend : gmap tid (key * val)) (l : list wev) : option (gmap tid (key * val)) :=
+  match l with
+  | [] => Some pend
+  | WEnd t k v :: r => wlands (<[t := (k, v)]> pend) r
+  | WWrite t k v :: r =>
+      match pend !! t with
+      | Some kv => if bool_decide (kv = (k, v)) then wlands (delete t pend) r else None
+      | None => wlands pend r
+      end
+  end.
+
+Definition lands (pend : gmap tid (key * val)) (l : list fev) : option (gmap tid (key * val)) :=
+  wlands pend (omap wproj l).
+
+Definition c04_lands (l : list fev) : bool :=
+  match lands ∅ l with Some _ => true | None => false end.
+
 Definition C04_obs (c : fcase) : bool :=
-  (fc_final_locks c =? 0) && all_returned (fc_labels c) && c04_follow [] (impl_trace c).
+  (fc_final_locks c =? 0) && all_returned (fc_labels c) && c04_follow [] (impl_trace c) && c04_lands (impl_trace c).
 
 (* ---------- C05 ---------- *)
 (* SyncRead on: once a build of k has been stored successfully, no builder is invoked for k again
